@@ -22,6 +22,10 @@ pub struct Sent {
 
 const SUBSET_RATES: &[u32] = &[44100, 8000, 16000, 22050, 24000, 32000, 48000, 88200, 96000, 176400, 192000, 1000, 254000, 12345, 1, 65534, 100000, 655340, 300];
 const SUBSET_BPS: &[u32] = &[16, 8, 12, 20, 24, 32];
+/// sample rates that no frame header can carry (neither a table code nor an 8-bit kHz / 16-bit Hz /
+/// 16-bit tens-of-Hz extension): a raw stream has no STREAMINFO to refer to, so the stream writer has
+/// to refuse them — or whatever it emits must still be decodable from the frame's own header
+const UNCODABLE_RATES: &[u32] = &[65537, 99999, 705600, 768000, 1048575, 655351, 655360];
 
 pub fn send(ch: &Choices, disk: &Disk, max_frames: u64, small: bool) -> Result<Vec<Sent>, String> {
     let n = 1 + ch.draw("c16.frames", max_frames);
@@ -45,6 +49,9 @@ pub fn send(ch: &Choices, disk: &Disk, max_frames: u64, small: bool) -> Result<V
     for i in 0..n {
         if i == 0 || vary {
             rate = *ch.pick("c16.rate", SUBSET_RATES);
+            if ch.draw("c16.rate.uncodable", 10) == 9 {
+                rate = *ch.pick("c16.rate.u", UNCODABLE_RATES);
+            }
             chn = 1 + *ch.pick("c16.ch", &[0u8, 1, 0, 1, 2, 5, 7]);
             bps = *ch.pick("c16.bps", SUBSET_BPS);
             if i > 0 {
@@ -60,7 +67,20 @@ pub fn send(ch: &Choices, disk: &Disk, max_frames: u64, small: bool) -> Result<V
         };
         let pcm = draw_pcm(ch, chn, bps, len);
         let before = disk.len(file);
-        w.write(rate, chn, bps, &pcm.inter).map_err(|e| format!("frame {i} (rate={rate} ch={chn} bits={bps} len={len}): {e:?}"))?;
+        let res = w.write(rate, chn, bps, &pcm.inter);
+        if UNCODABLE_RATES.contains(&rate) {
+            match res {
+                Err(_) if disk.len(file) == before => {
+                    // refused, nothing emitted: the stream is unaffected
+                    probe("c16_uncodable_rate_refused");
+                    continue;
+                }
+                Err(e) => return Err(format!("frame {i}: rate {rate} was refused ({e:?}) after {} bytes had been emitted into the stream", disk.len(file) - before)),
+                Ok(()) => probe("c16_uncodable_rate_accepted"),
+            }
+        } else {
+            res.map_err(|e| format!("frame {i} (rate={rate} ch={chn} bits={bps} len={len}): {e:?}"))?;
+        }
         let all = disk.data(file);
         sent.push(Sent {
             rate,
@@ -210,6 +230,10 @@ pub fn run(ctx: &mut Ctx) -> R {
             return viol(v.class, format!("FlacStreamWriter::write: {msg}"));
         }
     };
+    if sent.is_empty() {
+        ctx.eval(0, false); // every call was (rightly) refused: nothing on the wire
+        return Ok(());
+    }
     let clean: Vec<u8> = sent.iter().flat_map(|s| s.bytes.clone()).collect();
     ctx.describe(|| {
         format!(
@@ -411,7 +435,7 @@ pub fn run_sweeps(ctx: &mut Ctx) -> R {
         Err(e) => return viol("frame-lost", format!("FlacStreamWriter refused legal subset parameters: {e}")),
     };
     let clean: Vec<u8> = sent.iter().flat_map(|s| s.bytes.clone()).collect();
-    if clean.len() > 1024 {
+    if clean.len() > 1024 || sent.is_empty() {
         ctx.eval(0, false);
         return Ok(());
     }
